@@ -190,7 +190,7 @@ func covered(op compiler.Opcode) bool {
 		compiler.Opcode_Member_Anyobj, compiler.Opcode_Into_Range, compiler.Opcode_Call_Imm, compiler.Opcode_Return,
 		compiler.Opcode_Clone, compiler.Opcode_Cloning_Push, compiler.Opcode_Eq, compiler.Opcode_Eq_PopOnce, compiler.Opcode_Throw,
 		compiler.Opcode_Index, compiler.Opcode_Cast, compiler.Opcode_Member, compiler.Opcode_IntoIter,
-		compiler.Opcode_GetGlobImm, compiler.Opcode_SetGlobImm, compiler.Opcode_IteratorAdvance:
+		compiler.Opcode_GetGlobImm, compiler.Opcode_SetGlobImm, compiler.Opcode_IteratorAdvance, compiler.Opcode_Load_Singleton:
 		return true
 	}
 	return isBinary(op)
@@ -240,6 +240,9 @@ func instrPre(c Core, i compiler.Instruction) bool {
 		return c.okTop(2) && c.peek(0).Kind() == value.IntValueKind && c.peek(1).Kind() == value.IntValueKind
 	case compiler.Opcode_Clone, compiler.Opcode_Throw, compiler.Opcode_IntoIter:
 		return c.okTop(1)
+	case compiler.Opcode_Load_Singleton:
+		// the default value of the singleton is on top
+		return c.okTop(1) && c.parent != nil && c.parent.Executor != nil
 	case compiler.Opcode_IteratorAdvance:
 		// an iterator (produced by IntoIter) is on top
 		if !c.okTop(1) {
@@ -394,6 +397,20 @@ func keepsFrame(op compiler.Opcode) bool {
     serves C08
     trusted
     modifies nothing
+@*/
+
+// An imported builtin is stored under its name in the global table (the host
+// that analysed the program also executes it: a builtin the analyzer found is
+// found again - assumed, the panic for the other case is a host contract).
+
+/*@ func (self *Core) importItem
+    serves C01, C02, C15
+    assume-unreachable Every imported value is always found
+    requires self.Executor != nil && self.parent != nil && self.parent.globals.Data != nil
+    requires @globals-unlocked rlocks(&self.parent.globals.Mutex) == 0 && !wlocked(&self.parent.globals.Mutex)
+    ensures @globals-unlocked rlocks(&self.parent.globals.Mutex) == 0 && !wlocked(&self.parent.globals.Mutex)
+    ensures @bound haskey(self.parent.globals.Data, toImport)
+    ensures @core-untouched len(self.Stack) == old(len(self.Stack)) && len(self.CallStack) == old(len(self.CallStack)) && self.MemoryPointer == old(self.MemoryPointer)
 @*/
 
 /*@ func (self *Core) runInstruction
